@@ -124,6 +124,8 @@ struct Cfg {
     order: String,
     show: bool,
     update: i64,
+    logm: Option<Vec<u32>>,
+    dlog: bool,
 }
 
 fn kv<'a>(toks: &'a [&'a str], key: &str) -> Option<&'a str> {
@@ -150,6 +152,8 @@ fn make_args(cfg: &Cfg, source: &str) -> Args {
     a.source = source.to_string();
     a.tcp = String::new();
     a.observer_coord = None;
+    a.log_messages = cfg.logm.clone();
+    a.downlink_log = if cfg.dlog { Some(format!("{}.dlog", source)) } else { None };
     a
 }
 
@@ -214,7 +218,7 @@ fn main() {
     let table: Arc<RwLock<HashMap<u32, Plane>>> = Arc::new(RwLock::new(HashMap::new()));
     let mut cfg = Cfg {
         relaxed: false, use_update: false, count: false, filter: None, delete_after: 60,
-        groups: "aAews".to_string(), order: "sA".to_string(), show: false, update: -1,
+        groups: "aAews".to_string(), order: "sA".to_string(), show: false, update: -1, logm: None, dlog: false,
     };
     let mut seg: Option<Vec<u8>> = None;
     let mut seg_no = 0u64;
@@ -242,6 +246,10 @@ fn main() {
                         cfg.filter = if f == "-" { None } else { Some(f.split(',').filter_map(|x| x.parse().ok()).collect()) };
                     }
                     if let Some(d) = kv(t, "delete_after") { cfg.delete_after = d.parse().unwrap_or(cfg.delete_after); }
+                    cfg.dlog = bv("dlog", cfg.dlog);
+                    if let Some(f) = kv(t, "logm") {
+                        cfg.logm = if f == "-" { None } else { Some(f.split(',').filter_map(|x| x.parse().ok()).collect()) };
+                    }
                     if let Some(d) = kv(t, "update") { cfg.update = d.parse().unwrap_or(cfg.update); }
                     if let Some(g) = kv(t, "groups") { cfg.groups = g.to_string(); }
                     if let Some(g) = kv(t, "order") { cfg.order = if g == "-" { String::new() } else { g.to_string() }; }
@@ -254,7 +262,7 @@ fn main() {
                     table.write().unwrap().clear();
                     cfg = Cfg {
                         relaxed: false, use_update: false, count: false, filter: None, delete_after: 60,
-                        groups: "aAews".to_string(), order: "sA".to_string(), show: false, update: -1,
+                        groups: "aAews".to_string(), order: "sA".to_string(), show: false, update: -1, logm: None, dlog: false,
                     };
                 }
                 "seg" => { seg = Some(Vec::new()); }
@@ -278,6 +286,7 @@ fn main() {
                         std::io::stdout().flush().ok();
                         println!("\n@@SEG {} END", seg_no);
                         let _ = std::fs::remove_file(&path);
+                        let _ = std::fs::remove_file(format!("{}.dlog", path.to_str().unwrap()));
                         match r {
                             Ok(Ok(())) => { writeln!(o, "seg {} ok", seg_no).unwrap(); }
                             Ok(Err(e)) => { writeln!(o, "seg {} ioerr {}", seg_no, e).unwrap(); }
